@@ -4,6 +4,8 @@ import (
 	"bytes"
 	"fmt"
 	"io"
+	"runtime"
+	"sync"
 
 	"github.com/gobwas/ws"
 	"github.com/gobwas/ws/wsutil"
@@ -308,6 +310,53 @@ func c01(c *ctx) {
 			n++
 		}
 	}
+	// the codec under concurrent use: goroutines encode and decode their own headers at the same time,
+	// through writers that yield before they copy (the encoder must not lend them shared scratch memory)
+	for _, procs := range []int{1, 4} {
+		key := fmt.Sprintf("conc/%d", procs)
+		if !vh.Only(key) {
+			continue
+		}
+		prev := runtime.GOMAXPROCS(procs)
+		const G, K = 6, 400
+		bad := make([]string, G)
+		var wg sync.WaitGroup
+		for g := 0; g < G; g++ {
+			wg.Add(1)
+			go func(g int) {
+				defer wg.Done()
+				for i := 0; i < K && bad[g] == ""; i++ {
+					h := vh.H{Fin: i%2 == 0, Rsv: (g + i) % 8, Op: (g*3 + i) % 16, Masked: g%2 == 0, Mask: []int{0, 0, 0, 0}, N: uint64([]int{0, 125, 126, 65535, 65536, 1 << 33}[(g+i)%6] + g)}
+					if h.Masked {
+						h.Mask = []int{g + 1, i % 256, 7, 9}
+					}
+					h.Len = vh.Len8(h.N)
+					want := vh.OwnEncode(h)
+					var got []byte
+					err := ws.WriteHeader(yieldWriter{&got}, toWS(h))
+					if err != nil || !bytes.Equal(got, want) {
+						bad[g] = fmt.Sprintf("goroutine %d header %d: WriteHeader gave %x, want %x (%v)", g, i, got, want, err)
+						break
+					}
+					rh, err := ws.ReadHeader(&vh.ChunkReader{Data: want, Sizes: []int{1}})
+					if err != nil || fromWS(rh).N != h.N || fromWS(rh).Op != h.Op {
+						bad[g] = fmt.Sprintf("goroutine %d header %d: ReadHeader gave %+v (%v)", g, i, rh, err)
+					}
+				}
+			}(g)
+		}
+		wg.Wait()
+		runtime.GOMAXPROCS(prev)
+		first := ""
+		for _, b := range bad {
+			if b != "" && first == "" {
+				first = b
+			}
+		}
+		out.Emit(map[string]interface{}{"k": "conc", "key": key, "procs": procs, "ok": first == "", "first": first}, true)
+		shapes.Add("conc/%d", procs)
+		n++
+	}
 	// ReadFrame on a truncated payload must fail
 	for _, pl := range []int{1, 125, 126, 65536} {
 		for _, cut := range []int{0, 1, pl - 1} {
@@ -353,4 +402,13 @@ func splitAt(b []byte, hs int, payload []byte) ([]byte, bool) {
 		return b, false
 	}
 	return b[:hs], bytes.Equal(b[hs:], payload)
+}
+
+// yieldWriter lets other goroutines run between receiving a slice and copying it.
+type yieldWriter struct{ dst *[]byte }
+
+func (y yieldWriter) Write(p []byte) (int, error) {
+	runtime.Gosched()
+	*y.dst = append(*y.dst, p...)
+	return len(p), nil
 }
